@@ -40,6 +40,8 @@ def run(ctx):
     import unsafe_codec
     unsafe_codec.zero_copy_sites(rep, 'R01.z', prog, cg)
     unsafe_codec.reader_accounting(rep, 'R01.r', prog, cg)
+    import thrift_pairs as tp_z
+    tp_z.zero_copy_keeps_prefix(rep, 'R01.z', prog, cg)
     rep.floor('R01.a', 90)
     rep.floor('R01.e', 100)
     rep.floor('R01.i', 40)
